@@ -84,16 +84,31 @@ def run():
     ctl = [A(a='AllocCache', c='c1', s='s1', m='m1'), A(a='InitCache', c='c1', k='K1'), A(a='CreateVm', v='v1', kind='CL', c='c1', d='none', v2=False),
            A(a='Hash', v='v1', key='K1', **{'in': 'I1'}), A(a='DestroyVm', v='v1'), A(a='ReleaseCache', c='c1')]
     scens.append({'text': apiscen.to_text(ctl, {'cachejit': 1, 'secure': 0}), 'ks': 0, 'iset': 0})
+    # every secure JIT flag combination, including LARGE_PAGES (the VM cannot be created without huge pages,
+    # but whatever the constructor requests before failing is observed)
+    combo_txt = 'AllocCache c1 s1 m1 jit=1\nInitCache c1 K1\nAllocDataset d1 dm1 nchunks=1\nInitDatasetChunk d1 c1 1\n'
+    for fullm in (0, 1):
+        for hard in (0, 1):
+            for large in (0, 1):
+                kind = 'CF' if fullm else 'CL'
+                combo_txt += 'CreateVm v1 %s %s %s v2=0 hard=%d secure=1 large=%d\n' % (kind, 'none' if fullm else 'c1', 'd1' if fullm else 'none', hard, large)
+                if not large:
+                    combo_txt += ('Hash v1 I1 key=K1\n' if not fullm else '') + 'DestroyVm v1\n'
+    combo_txt += 'AllocCache c2 s2 m2 jit=1 large=1\nReleaseDataset d1\nReleaseCache c1\n'
+    scens.append({'text': combo_txt, 'ks': 0, 'iset': 0, 'nomodel': True})
     combos = sorted(set((s['ks'], s['iset']) for s in scens))
     tabs = apiscen.fresh_tables(combos, lambda c: ['IL', 'CL', 'CF'] if c == (0, 0) else ['IL', 'CL'], os.path.join(wd, 'fresh'))
     for s in scens:
         s['data'], s['fresh'] = tabs[(s['ks'], s['iset'])]
     traces = apiscen.replay(scens, os.path.join(wd, 'replay'), os_log=True, watchdog=600)
-    lines, group = [], []
+    lines, group, mlines, mgroup = [], [], [], []
     for j, t in enumerate(traces):
         fl = flatten(t)
         lines += ['{"e":"Reset"}'] + fl
         group += [j] * (len(fl) + 1)
+        if not scens[j].get('nomodel'):     # the abstract model has no failing constructor
+            mlines += ['{"e":"Reset"}'] + fl
+            mgroup += [j] * (len(fl) + 1)
     res = vlib.validate_sharded('TraceProt', 'TraceProt.cfg', lines, 'c16', shards=16, timeout=1500, group=group, independent=False)
     ck.add_traces('TraceProt', res, 'every mmap/mprotect/munmap on code buffers during secure-VM histories, NoWX after each request, kernel view (/proc/self/maps) at each return')
     for rj in res['rejected']:
@@ -104,7 +119,7 @@ def run():
         ck.violation('prot:%s:%s' % (cname, rj['line'][:60].replace('"', '').replace(' ', '')), 'protection event rejected: %s | %s' % (rj['line'][:200], rj['tlc'][:300]),
                      {'trace_tail': upto[-8:], 'tlc': rj['tlc']})
     # binding of the abstract model (model drift is reported, it is not a violation of C16)
-    res2 = vlib.validate_sharded('TraceProtModel', 'TraceProtModel.cfg', lines, 'c16m', shards=16, timeout=1500, group=group, independent=False)
+    res2 = vlib.validate_sharded('TraceProtModel', 'TraceProtModel.cfg', mlines, 'c16m', shards=16, timeout=1500, group=mgroup, independent=False)
     ck.cov['parts']['TraceProtModel'] = {'trace_events_accepted': res2['accepted'], 'trace_events_total': res2['total'],
                                          'model_drift': [x['line'][:200] for x in res2['rejected']][:5]}
     ck.cov['states'] += res2['states']
